@@ -381,29 +381,43 @@ PROPS["C10"] = {
 }
 
 # ------------------------------------------------------------------------------------------ C11
+import re
 import vlib as _v
 LIVE_CONSTS = {"MaxDials": 3, "FixAbortLeak": "TRUE", "KeepResyncOnAccept": "TRUE", "SyncingChoices": "<- AnySyncing",
-               "DialReasons": "<- TwoReasons"}
+               "DialReasons": "<- TwoReasons", "Yielder": 2}
+_LIVE = {"yielder": 2}     # which node yields in a simultaneous dial, probed from the code before schedules are exported
 LIVE_INV = ["NoTwoSessions", "SlotFreed", "NoResyncLost", "SimulExactlyOne", "NotFoundWhenNotSyncing"]
 
 
 def livesync_schedules(wdir, tier, seed, cov):
     """TLC is the test generator: export schedules (hist) of LiveSync.tla behaviours that end quiescent."""
-    import os
+    import os, subprocess
+    # Which of the two nodes yields in a simultaneous dial is not C11's business (exactly one must): ask the code once
+    # (both nodes dial, each is handed the other's request) and generate / validate with that direction.  If the probe
+    # finds no consistent answer the default direction is used and the traces show the inconsistency.
+    try:
+        pr = subprocess.run([_v.VDRIVE, "livesync", "--probe", "1", "--out", os.path.join(wdir, "probe.ndjson")],
+                            capture_output=True, text=True, timeout=120)
+        m = re.search(r'"yielder":\s*(\d)', pr.stdout)
+        _LIVE["yielder"] = int(m.group(1)) if m and m.group(1) in ("1", "2") else 2
+    except Exception:
+        _LIVE["yielder"] = 2
+    cov["tie_break_probe"] = {"yielder_node": _LIVE["yielder"]}
+    LC = dict(LIVE_CONSTS, Yielder=_LIVE["yielder"])
     out = os.path.join(wdir, "livesync-schedules.json")
     open(out, "w").close()
     # (a) edge coverage: one schedule per transition of the 2-dial state graph = the discovery path of the source state
     #     followed by the action, so that every (state, action) pair of the model is replayed on the real code
-    c2 = dict(LIVE_CONSTS, MaxDials=2)
+    c2 = dict(LC, MaxDials=2)
     n1, r1 = _v.export_schedules("MCLiveSync", _v.cfg_text(consts=c2, view="view", extra="ACTION_CONSTRAINT EmitEdges"), out,
                                  workers=1, tag="C11-sched")
     num = 1500 if tier == "quick" else 12000
-    n2, r2 = _v.export_schedules("MCLiveSync", _v.cfg_text(consts=LIVE_CONSTS, invariants=["EmitSchedules"], view="view"), out,
+    n2, r2 = _v.export_schedules("MCLiveSync", _v.cfg_text(consts=LC, invariants=["EmitSchedules"], view="view"), out,
                                  simulate=f"num={num}", seed=seed, depth=80, workers=4, limit=6000 if tier == "quick" else 40000,
                                  tag="C11-sched")
     n3 = 0
     if tier == "thorough":
-        c4 = dict(LIVE_CONSTS, MaxDials=4, DialReasons="<- AllReasons")
+        c4 = dict(LC, MaxDials=4, DialReasons="<- AllReasons")
         n3, r3 = _v.export_schedules("MCLiveSync", _v.cfg_text(consts=c4, invariants=["EmitSchedules"], view="view"), out,
                                      simulate="num=6000", seed=seed, depth=120, workers=4, limit=20000, tag="C11-sched")
     cov["schedules_from_tlc"] = {"one_per_transition_maxdials2": n1, "simulated_maxdials3": n2, "simulated_maxdials4": n3}
@@ -421,7 +435,9 @@ PROPS["C11"] = {
             "after every action and all invariants are evaluated on the validated trace",
     "assumptions": ["a started dial is captured instead of connecting (hook H6); task results are synthesised as "
                     "connect_and_sync / handle_connection produce them (C10 pins those)",
-                    "two nodes, one document; the node with the greater endpoint id is node 2 (both dial directions are explored)"],
+                    "two nodes, one document; the node with the greater endpoint id is node 2 (both dial directions are explored)",
+                    "which node yields in a simultaneous dial is probed from the code before the schedules are exported (the property "
+                    "only demands that exactly one does); the model itself is checked for the code's direction (node 2), the other is symmetric"],
     "models": [
         {"name": "livesync", "module": "MCLiveSync", "workers": 12, "timeout": 1800, "consts": LIVE_CONSTS,
          "invariants": LIVE_INV, "view": "view"},
@@ -435,8 +451,8 @@ PROPS["C11"] = {
     "drives": [
         {"name": "livesync", "cmd": "livesync", "args": {}, "schedules_from": livesync_schedules,
          "trace_module": "LiveSyncTrace", "spec": "TSpec",
-         "trace_consts": {"MaxDials": 1000, "FixAbortLeak": "TRUE", "KeepResyncOnAccept": "TRUE", "SyncingChoices": "{{}}",
-                          "DialReasons": "{}"},
+         "trace_consts": lambda: {"MaxDials": 1000, "FixAbortLeak": "TRUE", "KeepResyncOnAccept": "TRUE", "SyncingChoices": "{{}}",
+                                  "DialReasons": "{}", "Yielder": _LIVE["yielder"]},
          "trace_invariants": LIVE_INV, "tv_timeout": 3000, "timeout": 7200},
     ],
 }
